@@ -17,13 +17,13 @@ type FuncFacts struct {
 
 // Assign is one assignment to a local object.
 type Assign struct {
-	Rhs     ast.Expr   // nil for range vars / multi-value
-	Stmt    ast.Node   // the statement
-	Ranges  []ast.Expr // range expressions of enclosing range statements (control dependence)
-	RangeOf ast.Expr   // when the object is the key/value variable of `range X`
-	IsKey   bool
-	Call    *ast.CallExpr // for `a, b := f()`: the call, Idx the result index
-	Idx     int
+	Rhs        ast.Expr   // nil for range vars / multi-value
+	Stmt       ast.Node   // the statement
+	Ranges     []ast.Expr // range expressions of enclosing range statements (control dependence)
+	RangeOf    ast.Expr   // when the object is the key/value variable of `range X`
+	IsKey      bool
+	Call       *ast.CallExpr // for `a, b := f()`: the call, Idx the result index
+	Idx        int
 	TypeAssert *ast.TypeAssertExpr // v, ok := x.(T): for v (Idx 0) / ok (Idx 1)
 	MapIndex   *ast.IndexExpr      // v, ok := m[k]
 }
@@ -513,6 +513,20 @@ func (na *NilAnalysis) classifyObjAt(ff *FuncFacts, o types.Object, at ast.Node,
 			if ds, ok := s.(*ast.DeclStmt); ok {
 				_ = ds
 			}
+			// `if o == nil { o = <non-nil> }`: afterwards o is non-nil
+			if ifs, ok := s.(*ast.IfStmt); ok && ifs.Else == nil && ifs.Init == nil && len(ifs.Body.List) >= 1 {
+				if be, ok := ast.Unparen(ifs.Cond).(*ast.BinaryExpr); ok && be.Op == token.EQL && IsNil(info, be.Y) {
+					if id, ok := ast.Unparen(be.X).(*ast.Ident); ok && info.ObjectOf(id) == o {
+						for _, bs := range ifs.Body.List {
+							if as, ok := bs.(*ast.AssignStmt); ok && len(as.Lhs) == 1 && len(as.Rhs) == 1 {
+								if lid, ok := as.Lhs[0].(*ast.Ident); ok && info.ObjectOf(lid) == o && na.classify(ff, as.Rhs[0], as, depth+1) == NonNil {
+									return NonNil
+								}
+							}
+						}
+					}
+				}
+			}
 			// assigned in a nested/compound way: fall back to guards only
 			goto guards
 		}
@@ -709,4 +723,10 @@ func (ff *FuncFacts) ReachingAssign(o types.Object, at ast.Node) ast.Expr {
 		}
 	}
 	return nil
+}
+
+// ResultNeverNil reports whether result idx of f is never nil (second result: nil only if that
+// parameter is nil, -1 when not applicable).
+func (na *NilAnalysis) ResultNeverNil(f *types.Func, idx int) (bool, int) {
+	return na.resultNeverNil(f, idx)
 }
